@@ -60,12 +60,35 @@ func gErrNil(name string, cs CallSpec) Guard {
 		if cd.Kind != CondNotNil {
 			return false, false
 		}
-		call, _ := callOf(cd.Base)
-		if call == nil || !cs.matches(call) {
+		if !matchCallValue(cd.Base, cs, -2) {
 			return false, false
 		}
 		return true, cd.Neg
 	}}
+}
+
+// matchCallValue: v is the result (tuple element idx; -1 single result; -2 any) of a call
+// matching cs, or a phi all of whose non-constant edges are.
+func matchCallValue(v ssa.Value, cs CallSpec, idx int) bool {
+	v = stripValue(v)
+	if phi, ok := v.(*ssa.Phi); ok {
+		n := 0
+		for _, e := range phi.Edges {
+			if _, isC := e.(*ssa.Const); isC || e == phi {
+				continue
+			}
+			if !matchCallValue(e, cs, idx) {
+				return false
+			}
+			n++
+		}
+		return n > 0
+	}
+	call, i := callOf(v)
+	if call == nil || !cs.matches(call) {
+		return false
+	}
+	return idx == -2 || i == idx
 }
 
 // gNotNil / gIsNil on an arbitrary value predicate
